@@ -99,8 +99,10 @@ def build_doc(net: list[dict], emb, order: str) -> str:
 
 
 # ------------------------------------------------------------------------------------------------ the real code
-def _observe(case: dict, en: str, order: str) -> dict:
-    """Build the real model for (netlist, embedding) and evaluate every configuration of the case."""
+def _observe(case: dict, en: str, order: str, probe=None) -> dict:
+    """Build the real model for (netlist, embedding) and evaluate every configuration of the case.
+    `probe(model, index, emb, event)`, when given, replaces the evaluation of the equations (used by the
+    LEGALPOST driver, which calls the post-processing methods on the model with the assigned configuration)."""
     import tempfile
     from frame.geometry.geometry import Rectangle
     from frame.netlist.netlist import Netlist
@@ -174,6 +176,9 @@ def _observe(case: dict, en: str, order: str) -> dict:
                         mm.y[j].assign(float(cy))
                         mm.w[j].assign(float(ww))
                         mm.h[j].assign(float(hh))
+                if probe is not None:
+                    obs.append(probe(model, index, emb, ev))
+                    continue
                 bad = set()
                 neq = 0
                 try:
